@@ -34,7 +34,7 @@ def coq_str(s: str) -> str:
     if not isinstance(s, str):
         die(f"expected str constant, got {s!r}")
     body = ";".join(str(ord(c)) for c in s)
-    shown = "".join(c if 32 <= ord(c) < 127 and c not in "*()" else "?" for c in s)
+    shown = "".join(c if 32 <= ord(c) < 127 and c not in '*()"' else "?" for c in s)
     return f"([{body}]%N (* {shown} *) : str)"
 
 
@@ -374,6 +374,88 @@ def read_methods(mod: ast.Module, tags: dict[str, str]) -> tuple[list[str], list
     return sorted(opens), sorted(closes)
 
 
+def read_handler_facts(mod: ast.Module, tags: dict[str, str]):
+    """Per TagRunner._open_* / _close_* method, in source order of occurrence:
+      ret    the constant it returns (True / False; None for a close method), following
+             `return self._open_x(tree)` aliases;
+      calls  the self.tables.<method> calls in its body, in source order;
+      lits   the string literals of its body (f-string fragments included), docstring and
+             attribute names excluded;
+      attrs  the attribute names it reads: qn(tree, "w:id") second arguments and
+             tree.attrib["name"] subscripts.
+    Fail-closed on any return that is not a constant or such an alias."""
+    cls = top_class(mod, "TagRunner")
+    lower2name = {n.lower(): n for n in tags}
+    methods = {s.name: s for s in cls.body if isinstance(s, ast.FunctionDef)}
+
+    def ret_of(fn, seen=()):
+        rets = [n for n in ast.walk(fn) if isinstance(n, ast.Return)]
+        vals = set()
+        for r in rets:
+            v = r.value
+            if v is None:
+                vals.add(None)
+            elif isinstance(v, ast.Constant) and isinstance(v.value, bool):
+                vals.add(v.value)
+            elif (isinstance(v, ast.Call) and isinstance(v.func, ast.Attribute)
+                  and isinstance(v.func.value, ast.Name) and v.func.value.id == "self"
+                  and v.func.attr in methods and v.func.attr not in seen):
+                vals.add(ret_of(methods[v.func.attr], seen + (fn.name,)))
+            else:
+                die(f"{fn.name}: return value is neither a bool constant nor a handler alias")
+        if not rets:
+            vals.add(None)
+        if len(vals) != 1:
+            die(f"{fn.name}: returns different constants on different paths: {vals}")
+        return vals.pop()
+
+    def body_facts(fn, seen=()):
+        body = list(fn.body)
+        if body and isinstance(body[0], ast.Expr) and isinstance(body[0].value, ast.Constant) \
+                and isinstance(body[0].value.value, str):
+            body = body[1:]
+        calls, lits, attrs = [], [], []
+        skip = set()
+        nodes = []
+        for st in body:
+            nodes.extend(sorted((n for n in ast.walk(st) if hasattr(n, "lineno")),
+                                key=lambda n: (n.lineno, n.col_offset)))
+        for n in nodes:
+            if isinstance(n, ast.Call) and isinstance(n.func, ast.Name) and n.func.id == "qn" and len(n.args) == 2:
+                a = n.args[1]
+                if isinstance(a, ast.Constant) and isinstance(a.value, str):
+                    attrs.append(a.value)
+                    skip.add(id(a))
+            if isinstance(n, ast.Subscript) and isinstance(n.value, ast.Attribute) and n.value.attr == "attrib":
+                a = n.slice
+                if isinstance(a, ast.Constant) and isinstance(a.value, str):
+                    attrs.append(a.value)
+                    skip.add(id(a))
+            if isinstance(n, ast.Call) and isinstance(n.func, ast.Attribute):
+                f = n.func
+                if isinstance(f.value, ast.Attribute) and isinstance(f.value.value, ast.Name) \
+                        and f.value.value.id == "self" and f.value.attr in ("tables", "bullets"):
+                    calls.append(f"{f.value.attr}.{f.attr}")
+                if isinstance(f.value, ast.Name) and f.value.id == "self" and f.attr in methods \
+                        and f.attr not in seen and f.attr != fn.name:
+                    c2, l2, a2 = body_facts(methods[f.attr], seen + (fn.name,))
+                    calls += c2
+                    lits += l2
+                    attrs += a2
+        for n in nodes:
+            if isinstance(n, ast.Constant) and isinstance(n.value, str) and id(n) not in skip:
+                lits.append(n.value)
+        return calls, lits, attrs
+
+    out = []
+    for name, fn in methods.items():
+        for pre in ("_open_", "_close_"):
+            if name.startswith(pre) and name[len(pre):] in lower2name:
+                calls, lits, attrs = body_facts(fn)
+                out.append((pre[1:-1], lower2name[name[len(pre):]], ret_of(fn), calls, lits, attrs))
+    return sorted(out, key=lambda x: (x[0], x[1]))
+
+
 def read_depth_none_tags(mod: ast.Module, tags) -> list[str]:
     fn = top_func(mod, "_get_elem_depth")
     for s in fn.body:
@@ -417,6 +499,7 @@ def main(repo: Path, out: Path) -> None:
     dt = parse(repo, "docx_text.py")
     opens, closes = read_methods(dt, tags)
     depth_none = read_depth_none_tags(dt, tags)
+    hfacts = read_handler_facts(dt, tags)
 
     def tagvals(names):
         return coq_list([coq_str(tags[n]) for n in names], "str")
@@ -456,6 +539,13 @@ def main(repo: Path, out: Path) -> None:
              + coq_list([coq_str(s) for s in cft], "str") + ".")
     L.append("Definition save_overwrite_types : list str :=\n  "
              + coq_list([coq_str(s) for s in overwrite], "str") + ".")
+    def hrow(h):
+        kind, name, ret, calls, lits, attrs = h
+        r = {True: "Some true", False: "Some false", None: "None"}[ret]
+        return (f"(({coq_str(kind)}, {coq_str(name)}), ({r}, ({coq_list([coq_str(c) for c in calls], 'str')}, "
+                f"({coq_list([coq_str(x) for x in lits], 'str')}, {coq_list([coq_str(a) for a in attrs], 'str')}))))")
+    L.append("Definition handler_facts : list ((str * str) * (option bool * (list str * (list str * list str)))) :=\n  "
+             + coq_list([hrow(h) for h in hfacts]) + ".")
     L.append("Definition off_values : list str :=\n  "
              + coq_list([coq_str(s) for s in off_values], "str") + ".")
     text = "\n".join(L) + "\n"
